@@ -154,6 +154,7 @@ OBLIGATIONS = [
     native("n_c02_broken_refs", ["C02"], "C02.broken", "hulc::ctehexml::parse_with_catalog + Model::try_from on projects with one dangling name", CV + "n_c02_broken_refs"),
     native("n_c02_broken_sites", ["C02"], "C02.broken_sites", "hulc::ctehexml::parse_with_catalog + Model::try_from on projects with one written reference renamed", CV + "n_c02_broken_sites", timeout=900),
     native("n_c05_convert_repeat", ["C05"], "C05.convert", "hulc::ctehexml::parse_with_catalog + Model::try_from + Model::as_json (uuid_from_obj ids, collection order)", CV + "n_c05_convert_repeat", timeout=600, sampled="always"),
+    native("n_c05_degenerate_repeat", ["C05"], "C05.degenerate", "Model::try_from + as_json on projects with one degenerate element (a function of the project text only)", CV + "n_c05_degenerate_repeat", timeout=900),
     native("n_c05_ids_local", ["C05"], "C05.ids", "bemodel::utils::uuid_from_obj / IdMaps::new (ids from the element's own definition)", CV + "n_c05_ids_local", timeout=600),
     native("n_c05_ids_namesake", ["C05"], "C05.namesake", "IdMaps::new (one name -> id table per element kind) on projects where elements of different kinds share a name", CV + "n_c05_ids_namesake", timeout=900),
     native("n_c05_reference_models", ["C05"], "C05.reference", "hulc::ctehexml::parse_with_catalog + Model::try_from against bemodel/tests/data/*.json", CV + "n_c05_reference_models"),
@@ -243,7 +244,7 @@ MANIFEST_TEXT = {
             "text": "Bounded: a generated model carrying every collection, both material variants, overrides and the 'extra' block, with none / each one / each pair of 34 optional or defaulted fields flipped between absent-or-default and present-and-different (596 distinct models): loading back the serialised text gives a model equal in every field (Debug text of the whole model), and serialising again gives the identical text. The two extreme models with one value of their JSON text rewritten (every number -> 0 / 1 / negated, string -> \"\", flag flipped, key removed, list emptied: 758 models that still load) round-trip as well. The 7 shipped model files load and re-serialise to the same JSON value (numbers compared as f32), no key dropped or added. Deductive part: multiplier_is_1 / default_1, is_true / default_true and is_default agree for every f32 and bool (Kani). Which field carries which pair lives in serde derive attributes, and number formatting in serde_json: neither verifier can read those, so the rest is bounded.",
             "note": "Equality is judged on the Debug rendering (covers every field that derives Debug - all model types do). " + _TB},
     "C05": {"technique": "contracts on Model::try_from + as_json (a function of the project text only) and Model::energy_indicators (a function of the model only), evaluated on the real code by repetition, a fresh process, 16 threads and all ordered pairs of histories (bounded stand-in); no verifier here reasons about threads or processes",
-            "text": "Bounded: each of the 12 shipped projects converts to byte-identical JSON twice in one process, in a fresh process and on 16 threads at once; adding an unrelated library definition (14 block kinds x 3 positions x 12 projects) changes no existing id, nor does a definition of one kind under the name of an element of another kind (10 kinds pairwise, before / after the namesake: ids kept and no id shared); the 6 (project, reference model) pairs of the Makefile convert exactly to the shipped models; indicators of each of the 7 shipped models are the same JSON value alone, after any other model, and on 16 threads. Key order of map-typed results is not compared (not a value).",
+            "text": "Bounded: each of the 12 shipped projects converts to byte-identical JSON twice in one process, in a fresh process and on 16 threads at once, and so does every project obtained by setting one number of the first block of every kind to 0 / 1 (twice in the process and on another thread); adding an unrelated library definition (14 block kinds x 3 positions x 12 projects) changes no existing id, nor does a definition of one kind under the name of an element of another kind (10 kinds pairwise, before / after the namesake: ids kept and no id shared); the 6 (project, reference model) pairs of the Makefile convert exactly to the shipped models; indicators of each of the 7 shipped models are the same JSON value alone, after any other model, and on 16 threads. Key order of map-typed results is not compared (not a value).",
             "note": "Concurrency is sampled by running, not explored: a race that needs a particular interleaving can be missed. " + _TB},
     "C03": {"technique": "Kani proof harnesses on the real angle-convention functions (full float domain) and Polygon::mirror_y (<=5 vertices)",
             "text": "Narrow claim: only the angle-convention leaves of the conversion are decided - orientation_bdl_to_52016 lies in [-180,180] and is congruent to 180-a (mod 360) for every float in [-1080,1080], turning the building by d shifts every converted azimuth by -d, mirror_y keeps vertex 0 / reverses the rest / negates y. Positions, normals and rotations (trigonometry) are listed as undecided in the evidence.",
